@@ -240,3 +240,61 @@ mlu_rec = Fn(IM + 'lu', ret='r', level='L1', valid='self.nrows == self.ncols', p
 UNITS.append(Unit('C11_matrix_lu_reconstruct', ('C11', 'C01'), [mlu_rec], use=core.core_stubs(), types=core.TYPES, type_spec=core.TYPE_SPEC,
                   spec=c01.SPEC + c01.LU_SPEC + REC_SPEC, nra=NRA, preludes=PRE, broadcast=BC, level='L1', rlimit=300,
                   notes='Matrix::lu reconstructs the input: the same P A = L U contract as the slice-level routine, over the matrix data'))
+
+# ---------------------------------------------------------------- permutation parity (integers only)
+PAR_SPEC = c01.PERM_SPEC + r'''
+pub open spec fn swap32(p0: Seq<i32>, a: int, b: int) -> Seq<i32> { p0.update(a, p0[b]).update(b, p0[a]) }
+pub open spec fn apply_swaps(p: Seq<i32>, ts: Seq<(int, int)>) -> Seq<i32> decreases ts.len()
+{ if ts.len() == 0 { p } else { swap32(apply_swaps(p, ts.drop_last()), ts.last().0, ts.last().1) } }
+pub open spec fn m1(p: Seq<i32>, x: int) -> int { if p[x] != x { 1 } else { 0 } }
+/// number of positions q < k that are not fixed points
+pub open spec fn mis(p: Seq<i32>, k: int) -> int decreases k { if k <= 0 { 0 } else { mis(p, k - 1) + m1(p, k - 1) } }
+pub proof fn lemma_mis_two(p: Seq<i32>, q: Seq<i32>, k: int, a: int, b: int)
+    requires a != b, 0 <= k <= p.len(), p.len() == q.len(), forall|x: int| 0 <= x < p.len() && x != a && x != b ==> p[x] == q[x]
+    ensures mis(q, k) == mis(p, k) + (if 0 <= a < k { m1(q, a) - m1(p, a) } else { 0 }) + (if 0 <= b < k { m1(q, b) - m1(p, b) } else { 0 }), 0 <= mis(p, k) <= k
+    decreases k
+{ if k > 0 { lemma_mis_two(p, q, k - 1, a, b); } }
+pub proof fn lemma_mis_swap(p: Seq<i32>, n: int, i: int)
+    requires is_perm32(p, n), 0 <= i < n, p[i] != i
+    ensures mis(swap32(p, i, p[i] as int), n) < mis(p, n), 0 <= mis(swap32(p, i, p[i] as int), n)
+{
+    let j = p[i] as int;
+    let q = swap32(p, i, j);
+    assert(p[j] != j) by { if i < j { assert(p[i] != p[j]); } else { assert(p[j] != p[i]); } }
+    lemma_mis_two(p, q, n, i, j);
+    assert(q[j] == j);
+    lemma_mis_two(q, q, n, i, j);
+}
+
+/// ts is a sequence of proper transpositions of positions that sorts p
+pub open spec fn sorts(p: Seq<i32>, ts: Seq<(int, int)>) -> bool {
+    (forall|k: int| 0 <= k < ts.len() ==> 0 <= (#[trigger] ts[k]).0 < p.len() && 0 <= ts[k].1 < p.len() && ts[k].0 != ts[k].1)
+    && (forall|q: int| 0 <= q < p.len() ==> #[trigger] apply_swaps(p, ts)[q] == q) && apply_swaps(p, ts).len() == p.len()
+}
+/// the sign of a permutation: (-1)^(length of any decomposition into transpositions) - well defined by the parity theorem
+pub open spec fn is_sign(p: Seq<i32>, s: i32) -> bool { exists|ts: Seq<(int, int)>| #[trigger] sorts(p, ts) && s == (if ts.len() % 2 == 0 { 1i32 } else { -1i32 }) }
+'''
+U_ = 'linalg::utils::'
+parity = Fn(U_ + 'ipiv_parity', ret='r', level='int',
+            requires=['C11.parity.perm:: is_perm32(ipiv@, ipiv@.len() as int) && ipiv@.len() <= 0x7fff_ffff'],
+            ensures=['C11.parity.sign:: is_sign(ipiv@, r)'],
+            rewrites=[('let mut par = 0;', 'let mut par: u32 = 0;', 'R4c: integer literal given the type rustc infers for it (u32, the exponent of i32::pow)')],
+            loops={1: {'iter_name': 'it1', 'invariant': ['it1.iter.end == ipiv@.len()', 'perm@.len() == ipiv@.len()', 'ipiv@.len() <= 0x7fff_ffff', 'is_perm32(perm@, perm@.len() as int)',
+                                     'C11.parity.prefix_fixed:: forall|q: int| 0 <= q < i ==> #[trigger] perm@[q] == q',
+                                     'C11.parity.swaps:: apply_swaps(ipiv@, ts_) == perm@ && ts_.len() == par && par + mis(perm@, perm@.len() as int) <= perm@.len()',
+                                     'forall|k: int| 0 <= k < ts_.len() ==> 0 <= (#[trigger] ts_[k]).0 < ipiv@.len() && 0 <= ts_[k].1 < ipiv@.len() && ts_[k].0 != ts_[k].1']},
+                   2: {'invariant': ['perm@.len() == ipiv@.len()', 'ipiv@.len() <= 0x7fff_ffff', 'is_perm32(perm@, perm@.len() as int)', '0 <= i < perm@.len()',
+                                     'C11.parity.prefix_fixed.w:: forall|q: int| 0 <= q < i ==> #[trigger] perm@[q] == q',
+                                     'C11.parity.swaps.w:: apply_swaps(ipiv@, ts_) == perm@ && ts_.len() == par && par + mis(perm@, perm@.len() as int) <= perm@.len()',
+                                     'forall|k: int| 0 <= k < ts_.len() ==> 0 <= (#[trigger] ts_[k]).0 < ipiv@.len() && 0 <= ts_[k].1 < ipiv@.len() && ts_[k].0 != ts_[k].1'],
+                       'decreases': 'mis(perm@, perm@.len() as int)',
+                       'body_ghost': 'let ghost pre_p = perm@;',
+                       'body_start': 'lemma_mis_swap(perm@, perm@.len() as int, i as int); lemma_perm32_swap(perm@, perm@.len() as int, i as int, perm@[i as int] as int);',
+                       'body_end': ('assert(perm@ == swap32(pre_p, i as int, pre_p[i as int] as int)); '
+                                    'ts_ = ts_.push((i as int, pre_p[i as int] as int)); assert(ts_.drop_last() =~= old_ts_); '
+                                    'assert forall|q: int| 0 <= q < i implies #[trigger] perm@[q] == q by { if pre_p[i as int] as int == q { assert(pre_p[q] != pre_p[i as int]); } }')}},
+            hints=[('let mut par: u32 = 0;', 'after', 'let ghost mut ts_: Seq<(int, int)> = Seq::empty(); proof { assert(perm@ =~= ipiv@); lemma_mis_two(perm@, perm@, perm@.len() as int, 0, 1); }'),
+                   ('let j = perm[i] as usize;', 'before', 'let ghost old_ts_ = ts_;'),
+                   ('(-1_i32).pow(par)', 'replace', '({ proof { assert(sorts(ipiv@, ts_)); } (-1_i32).pow(par) })')])
+UNITS.append(Unit('C11_parity', 'C11', [parity], types=core.TYPES, type_spec=core.TYPE_SPEC, spec=c15.SPEC + PAR_SPEC + c01.PERM_SWAP_LEMMA, preludes=('fax_l0', 'fmeth', 'stdspec'), broadcast=('l0',), level='int',
+                  notes='ipiv_parity returns (-1)^k for a sequence of k proper transpositions that sorts the pivot permutation (its sign); the cycle-chasing loop terminates (misplaced positions decrease)'))
